@@ -84,6 +84,19 @@ Proof.
   rewrite app_assoc. rewrite (last_app_default (w ++ stored)). reflexivity.
 Qed.
 
+(* every sequence of later calls -- any number, any lengths, zero-length calls anywhere -- is one call *)
+Lemma g_later_one c init w rss : forall stored,
+  g_later Cfg St Rnd Acc step c init (mkG (Some w) stored) rss =
+  Some (mkG (Some w) (stored ++ states c (last (w ++ stored) init) (concat rss))).
+Proof.
+  induction rss as [|rs rest IH]; intros stored.
+  - cbn. rewrite app_nil_r. reflexivity.
+  - cbn [C14_Block.g_later concat]. rewrite g_call_later. rewrite IH.
+    f_equal. f_equal. rewrite <- app_assoc. f_equal.
+    rewrite (states_app Cfg St Rnd Acc step c rs). f_equal. f_equal.
+    rewrite app_assoc. rewrite (last_app_default (w ++ stored)). reflexivity.
+Qed.
+
 (* the first call records its warm-up sweeps *)
 Lemma g_call_first c init rs_warm rs :
   g_call true c init (mkG None []) rs_warm rs =
